@@ -9,7 +9,7 @@ NOBS = 4
 NONE, LIVE, INVAL, GONE = range(4)
 OPN = {0: 'subscribe', 1: 'unsubscribe(handle)', 2: 'unsubscribe(subject)', 3: 'mute', 4: 'unmute', 5: 'invalidate', 6: 'unsubscribe stale handle', 7: 'unsubscribe foreign handle',
        8: 'unsubscribe default handle', 9: 'notify round'}
-SIGS = {0: 'Subject<>', 1: 'Subject<int>', 2: 'Subject<const S&>', 3: 'Subject<int,int>'}
+SIGS = {0: 'Subject<>', 1: 'Subject<int>', 2: 'Subject<const S&>', 3: 'Subject<int,int>', 4: 'Subject<Sv> (class type by value)'}
 
 
 def step(state, op, k):
@@ -68,9 +68,9 @@ def plan(tier):
     units = {sig: Unit('subj_sig%d' % sig, [H], ['SIG=%d' % sig]) for sig in SIGS}
     qs = []
     if tier == 'quick':
-        plans = [(1, 2, (1, 2, 3)), (0, 1, (2,)), (2, 1, (2,)), (3, 1, (2,))]
+        plans = [(1, 2, (1, 2, 3)), (0, 1, (2,)), (2, 1, (2,)), (3, 1, (2,)), (4, 1, (2, 3))]
     else:
-        plans = [(1, 3, (0, 1, 2, 3)), (0, 2, (1, 2, 3)), (2, 2, (1, 2, 3)), (3, 2, (1, 2, 3))]
+        plans = [(1, 3, (0, 1, 2, 3)), (0, 2, (1, 2, 3)), (2, 2, (1, 2, 3)), (3, 2, (1, 2, 3)), (4, 2, (1, 2, 3))]
     extra = []
     if tier == 'quick':
         # targeted length-3 skeletons: (kill something, anything, subscribe again) — id/slot reuse after a removal
